@@ -528,6 +528,22 @@ def opInTotoRun (req : Json) : Except String Json := do
     pure (okJson (Json.mkObj [("link", linkJson l),
       ("written", match written with | none => .null | some (path, l') => Json.mkObj [("path", ofStr path), ("link", linkJson l')])]))
 
+/-- in-toto-sign (signing): key ids of the signatures afterwards and the output path. -/
+def opSignOps (req : Json) : Except String Json := do
+  let append ← boolOf (← field req "append")
+  let present ← strList (← field req "present")
+  let given ← strList (← field req "given")
+  let output ← optStrOf (fieldD req "output" .null)
+  let file ← toStr (← field req "file")
+  let kind ← match fieldD req "link_name" .null with
+    | .null => pure PayloadKind.layout
+    | .str n => pure (PayloadKind.link n.toList)
+    | _ => throw "bad link_name"
+  let ids := signKeyids append present given
+  let path := signOutPath output file kind given.getLast?
+  pure (okJson (Json.mkObj [("keyids", .arr (ids.map ofStr).toArray),
+    ("path", match path with | none => .null | some p => ofStr p)]))
+
 def opCliStatus (req : Json) : Except String Json := do
   let tool ← match (← field req "tool") with
     | .str "verify" => pure Tool.verify | .str "sign" => pure Tool.sign | .str "sign_verify" => pure Tool.signVerify
@@ -620,6 +636,7 @@ def dispatch (op : String) (req : Json) : Except String Json :=
   | "cli_main" => opCliMain req
   | "record_stop" => opRecordStop req
   | "in_toto_run" => opInTotoRun req
+  | "sign_ops" => opSignOps req
   | _ => throw s!"unknown op {op}"
 
 def handle (line : String) : String :=
